@@ -55,6 +55,8 @@ type view struct {
 	nResp        map[string]int
 	nBTT         int
 	nProc        int
+	nStatus2     map[string]int // statuses of the second task
+	nProc2       int
 	nSig         map[string]int
 	nOcc         map[string]int
 	nReq         map[string]int // delivered requests by type
@@ -161,6 +163,7 @@ type runner struct {
 	vx     *aliexec.VerifExecutor
 	loopMu sync.Mutex // the executor's event loop is one goroutine: its steps never overlap
 	ti     mesos.TaskInfo
+	ti2    mesos.TaskInfo // a second task of the same executor (step "Second")
 	envId  uid.ID
 	self   string
 	await  map[string]int
@@ -200,7 +203,8 @@ func (rn *runner) script() (string, int) {
 		case "exit3":
 			s = fmt.Sprintf(": > %s; read x < %s; exit 3", rdy, f)
 		case "fork": // a grandchild in the same process group that outlives the shell
-			s = fmt.Sprintf("/bin/sleep 600 & : > %s; read x < %s; exit 0", rdy, f)
+			// ready only once the forked child has exec'ed (its comm says so): from then on it is a stable fact
+			s = fmt.Sprintf("/bin/sleep 600 & until read c < /proc/$!/comm && [ \"$c\" = sleep ]; do :; done; : > %s; read x < %s; exit 0", rdy, f)
 		case "ignore":
 			s = fmt.Sprintf("trap '' TERM INT; : > %s; while :; do read x < %s; done", rdy, f)
 		case "crash":
@@ -281,6 +285,15 @@ func (rn *runner) pump() {
 		select {
 		case st := <-rn.vx.StatusCh():
 			name := st.GetState().String()
+			if st.TaskID.Value == rn.ti2.TaskID.Value && rn.ti2.TaskID.Value != "" {
+				// the second task of the same executor: facts for the monitor, not steps of the model
+				rn.rec.emit("Status2", map[string]interface{}{"state": name}, func(v *view) { v.nStatus2[name]++ })
+				rn.loopMu.Lock()
+				rn.guard("ProcStatus2", func() { rn.vx.PerformStatusUpdate(st) })
+				rn.loopMu.Unlock()
+				rn.rec.emit("Proc2", map[string]interface{}{"state": name}, func(v *view) { v.nProc2++ })
+				continue
+			}
 			hold := false
 			rn.rec.emit("Status", map[string]interface{}{"state": name}, func(v *view) {
 				// statusCh is FIFO: behind a held terminal status everything waits
@@ -558,10 +571,48 @@ func (rn *runner) step(st Step) {
 		for rn.vx.IsActive(rn.ti.TaskID) && time.Now().Before(dl) {
 			time.Sleep(5 * time.Millisecond)
 		}
+	case "Second":
+		rn.second()
 	case "Settle":
 		time.Sleep(settle)
 	default:
 		rn.rec.emit("Note", map[string]interface{}{"unknown_step": st.A}, nil)
+	}
+}
+
+// second: the same executor goes on with other work - LAUNCH of a second (basic) task, its TASK_RUNNING, a KILL
+// for it, its terminal status.  Each step of the event loop is guarded: one that does not return is a hang.
+func (rn *runner) second() {
+	rn.rec.mu.Lock()
+	rn.rec.emitLocked("Second", map[string]interface{}{"step": "launch"}) // written before the call: a hang leaves it
+	rn.rec.mu.Unlock()
+	rn.loopMu.Lock()
+	var err error
+	rn.guard("Launch2", func() {
+		err = rn.vx.HandleEvent(&executor.Event{Type: executor.Event_LAUNCH, Launch: &executor.Event_Launch{Task: rn.ti2}})
+	})
+	rn.loopMu.Unlock()
+	rn.rec.emit("Second", map[string]interface{}{"step": "launched", "ok": err == nil}, nil)
+	rn.rec.await("second task TASK_RUNNING", 8*time.Second, func(v *view) bool { return v.nStatus2["TASK_RUNNING"] > 0 && v.nProc2 > 0 })
+	rn.loopMu.Lock()
+	rn.guard("Kill2", func() { err = rn.vx.HandleKill(rn.ti2.TaskID) })
+	rn.loopMu.Unlock()
+	rn.rec.emit("Second", map[string]interface{}{"step": "killed", "ok": err == nil}, nil)
+	rn.rec.await("second task terminal status", 8*time.Second, func(v *view) bool { return v.nStatus2["TASK_FINISHED"] > 0 && v.nProc2 > 1 })
+}
+
+// secondTask describes the second task (built before the event loop's goroutines start).
+func (rn *runner) secondTask() {
+	data, _ := json.Marshal(map[string]interface{}{"shell": true, "value": "true", "env": []string{"VERIF_TAG=" + rn.tag},
+		"controlPort": 0, "controlMode": "basic"})
+	envs := rn.envId.String()
+	rn.ti2 = mesos.TaskInfo{
+		Name:     "verif-exectask-second#" + rn.tag,
+		TaskID:   mesos.TaskID{Value: "task2-" + rn.tag},
+		AgentID:  mesos.AgentID{Value: "agent-1"},
+		Executor: &mesos.ExecutorInfo{ExecutorID: mesos.ExecutorID{Value: "executor-1"}},
+		Labels:   &mesos.Labels{Labels: []mesos.Label{{Key: "environmentId", Value: &envs}}},
+		Data:     data,
 	}
 }
 
@@ -635,13 +686,14 @@ func runOne(scnPath, dir string, port int) int {
 	self, _ := os.Executable()
 	rn := &runner{sc: &sc, dir: dir, tag: filepath.Base(dir), fifo: filepath.Join(dir, "release.fifo"), self: self,
 		envId: uid.New(), await: map[string]int{}, port: port}
-	rn.rec = &recorder{f: f, sc: &sc, v: view{nStatus: map[string]int{}, nResp: map[string]int{}, nSig: map[string]int{},
+	rn.rec = &recorder{f: f, sc: &sc, v: view{nStatus: map[string]int{}, nStatus2: map[string]int{}, nResp: map[string]int{}, nSig: map[string]int{},
 		nOcc: map[string]int{}, nReq: map[string]int{}, cmdReq: map[string]string{}}}
 	if err := syscall.Mkfifo(rn.fifo, 0600); err != nil {
 		fmt.Fprintln(os.Stderr, "one: mkfifo:", err)
 		return 90
 	}
 	rn.vx = aliexec.NewVerifExecutor(calls.SenderFunc(rn.send))
+	rn.secondTask()
 	go rn.pump()
 	if sc.Kind == "ctl" {
 		go rn.tail()
@@ -686,7 +738,7 @@ func runOne(scnPath, dir string, port int) int {
 			}
 			sk, last = true, failedAt
 		}
-		procs := taggedProcs(rn.tag, nil)
+		procs := taggedProcsSure(rn.tag)
 		busy := sk && sc.Kind == "ctl" && rn.vx.IsActive(rn.ti.TaskID) // the Kill goroutine is still at it
 		if !sk || time.Now().After(last.Add(bound)) || (len(procs) == 0 && !busy) {
 			groups := map[int]bool{}
